@@ -102,7 +102,7 @@ def run_history(ctx, rng, root, cooks):
             clock[0] -= rng.choice([1, 7])
         macros = tuple(sorted(rng.sample(['m1', 'm2', 'm-3'], rng.randint(0, 2))))
         xml = rng.random() < .3
-        content = (ver[0], macros, xml, include and not is_lib)
+        content = (ver[0], macros, xml, include if not is_lib else False)
         with open(path, 'w') as f:
             f.write(body(*content))
         os.utime(path, (clock[0], clock[0]))
